@@ -627,6 +627,9 @@ func runC12(c *CaseCtx) (res CaseResult) {
 	if c.Idx%35 == 31 {
 		return runC12ManyInFlight(c, r)
 	}
+	if c.Idx%35 == 10 {
+		return runC12SharedFailingOptions(c, r)
+	}
 	if c.Idx%35 == 17 {
 		return runC12ConvertTypes(c, r)
 	}
